@@ -43,10 +43,14 @@ fn used_lines(lines: &[String], lay: Layout) -> Vec<String> {
     chunks(lines, lay).into_iter().flat_map(|c| if lay.maxl == 0 { c } else { c.into_iter().take(lay.maxl as usize - 1).collect() }).collect()
 }
 
+/// a corpus line that is written to the file as bytes that are not valid UTF-8: the reader skips it, but it is one
+/// of the first `max_lines_per_file` lines of its file
+pub const UNDECODABLE: &str = "\u{1}undecodable";
+
 fn word_counts(lines: &[String], norm: bool, lay: Layout) -> Vec<(Vec<u8>, u64)> {
     let lines = &used_lines(lines, lay);
     let mut m: HashMap<String, u64> = HashMap::new();
-    for l in lines {
+    for l in lines.iter().filter(|l| l.as_str() != UNDECODABLE) {
         let mut line = clean(l, true);
         if norm {
             line = normalize(&line, Normalization::NFKC, true);
@@ -72,7 +76,11 @@ fn train(lines: &[String], n_merges: usize, norm: bool, threads: u8, lay: Layout
         let p = format!("{dir}/corpus-{k}.txt");
         let mut f = std::fs::File::create(&p).map_err(|e| e.to_string())?;
         for l in chunk {
-            writeln!(f, "{l}").map_err(|e| e.to_string())?;
+            if l == UNDECODABLE {
+                f.write_all(&[0xff, 0xfe, b'a', b'b', b' ', b'a', b'b', b'\n']).map_err(|e| e.to_string())?;
+            } else {
+                writeln!(f, "{l}").map_err(|e| e.to_string())?;
+            }
         }
         paths.push(p);
     }
@@ -317,6 +325,14 @@ pub fn run_c19(ctx: &mut Ctx) {
                 lines.insert(at, l);
             }
         }
+        // lines that are not valid UTF-8 (skipped by the reader, but counted by max_lines_per_file)
+        let undecodable = i % 5 == 2;
+        if undecodable {
+            for _ in 0..ctx.rng.random_range(1..=2) {
+                let at = ctx.rng.random_range(0..=lines.len());
+                lines.insert(at, UNDECODABLE.to_string());
+            }
+        }
         let n = [0usize, 1, 2, 4, 60, 124, 128][ctx.rng.random_range(0..7)];
         let norm = ctx.rng.random_bool(0.5);
         // the same word in two spellings that the normalisation unifies, on one line (a with diaeresis precomposed
@@ -336,7 +352,7 @@ pub fn run_c19(ctx: &mut Ctx) {
         };
         let threads = [0u8, 1, 3][ctx.rng.random_range(0..3)];
         // one file and no limit for half of the corpora; otherwise 2-3 files and / or max_lines_per_file
-        let lay = if ctx.rng.random_bool(0.5) { Layout { nfiles: 1, maxl: 0 } } else { Layout { nfiles: ctx.rng.random_range(1..=3), maxl: ctx.rng.random_range(0..=4) } };
+        let lay = if ctx.rng.random_bool(0.5) && !undecodable { Layout { nfiles: 1, maxl: 0 } } else { Layout { nfiles: ctx.rng.random_range(1..=3), maxl: ctx.rng.random_range(if undecodable { 2 } else { 0 }..=4) } };
         let words = word_counts(&lines, norm, lay);
         let mut v = vec![n as u64, norm as u64, threads as u64, lay.nfiles, lay.maxl, lines.len() as u64];
         for l in &lines {
